@@ -378,7 +378,9 @@ def dexor_repeating(klen, k0, k1, k2, t0, t1, t2, t3, t4):
     key = bytes([k0, k1, k2][:klen])
     text = bytes([t0, t1, t2, t3, t4])
     out = dexor(text, key)
-    ok = len(out) == 5
+    if len(out) != 5:
+        return hx.fail("dexor: output length differs from the text length", key=key, text=text, out=out), True
+    ok = True
     for i in range(5):
         ok = ok & (out[i] == (text[i] ^ key[i % klen]))
     if not ok:
